@@ -148,6 +148,11 @@ class P(Prop):
         c = gen.circuit(rng, n_in=(1, 4), n_gates=(1, 7), max_arity=3, consts=0.15, dead=False, cyclic=rng.random() < 0.1)
         if rng.random() < 0.4:
             gen.add_flops(rng, c)
+        if rng.random() < 0.3:
+            # Verilog escaped identifiers: the writer sanitises them by renaming, which must happen on its own copy
+            n = rng.choice(sorted(c.graph.nodes))
+            if c.type(n) not in ("bb_input", "bb_output"):
+                c.relabel({n: "\\" + n + "[0]"})
         other = gen.circuit(rng, n_in=(1, 3), n_gates=(1, 4), in_names=sorted(c.inputs()))
         return c, other
 
